@@ -62,7 +62,7 @@ ASSUMPTIONS = ["Ed25519 signing/verification of ipv8.keyvault is trusted: a toke
 REACH = ["fork_children_before_parent", "chain_reversed", "forged_rejected", "foreign_rejected",
          "dangling_kept_unchained", "duplicate_ignored", "content_wrong_rejected", "content_right_attached",
          "content_via_token_attached", "roundtrip_ok", "upto_roundtrip_ok", "garbage_unserialize_raised",
-         "garbage_ignored", "waiting_area_overflow", "wire_feed", "token_withheld", "token_object_shared_between_trees", "big_tree_roundtrip_ok"]
+         "garbage_ignored", "waiting_area_overflow", "wire_feed", "token_withheld", "token_object_shared_between_trees", "big_tree_roundtrip_ok", "full_waiting_area_woken_at_once"]
 SHRINK_FIELDS = ("order",)
 
 FORGE_BIT = 512          # first bit of the signature in the 128-byte wire form
@@ -238,7 +238,7 @@ def cases(tier: str, base_seed: int):  # noqa: ANN201
                 else:
                     rng.shuffle(perm)
                 yield _case("perm", next(seq), shape, [["tok", i] for i in perm])
-    for k, (kind, n) in enumerate((("chain", 90), ("chain", 260), ("deep", 400), ("random", 500)) if not thorough else
+    for k, (kind, n) in enumerate((("chain", 90), ("chain", 260), ("chain", 1100), ("deep", 400), ("random", 500)) if not thorough else
                                   (("chain", 90), ("chain", 260), ("chain", 1000), ("deep", 400), ("deep", 1500), ("random", 500),
                                    ("random", 2000))):
         yield {"scenario": "bigtree", "seed": base_seed + k, "kind": kind, "n": n}
@@ -330,10 +330,30 @@ def execute_big(case: dict) -> dict:
     leaf = toks[-1]
     rx2 = TokenTree(public_key=key.pub())
     rx2.unserialize_public(src.serialize_public(leaf))
-    path = {t.get_hash() for t in src.get_root_path(leaf)}
+    path, cur = set(), leaf          # (walked by hand: get_root_path gives up beyond maxdepth = 1000)
+    while cur is not None:
+        path.add(cur.get_hash())
+        cur = src.elements.get(cur.previous_token_hash)
     if set(rx2.elements) != path:
         c.violate("roundtrip", "serialize_upto_roundtrip_differs",
                   f"{kind} tree of {n} tokens: serialize_public(up_to=leaf) reloads to {len(rx2.elements)} of {len(path)} path tokens")
+    if kind == "chain":
+        # arrival order, at the edge of the caveat: a chain of (waiting area + 1) tokens can never have more tokens waiting than the
+        # area holds, whatever the order - leaf first is the extreme case (everything waits, the root wakes the whole line)
+        rx3 = TokenTree(public_key=key.pub())
+        line = toks[: rx3.unchained_max_size + 1]
+        from ipv8.attestation.tokentree.token import Token
+        try:
+            for t in reversed(line):
+                rx3.gather_token(Token.unserialize(t.get_plaintext_signed(), key.pub()))
+        except Exception as e:  # noqa: BLE001
+            c.violate("order_independence", "gather_token_raised", f"leaf-first delivery of a chain of {len(line)} tokens: {type(e).__name__}")
+        if set(rx3.elements) != {t.get_hash() for t in line}:
+            c.violate("order_independence", "order_dependent_elements",
+                      f"chain of {len(line)} tokens (waiting area {rx3.unchained_max_size}) delivered leaf first: {len(rx3.elements)} chained, "
+                      f"{len(rx3.unchained)} left waiting")
+        else:
+            c.probe("full_waiting_area_woken_at_once")
     c.nontrivial(f"big/{kind}/{n}")
     c.world.trace.event("c16big", None, (kind, n, len(got)))
     c.sample = {"scenario": "bigtree", "kind": kind, "tokens": n, "reloaded": len(got)}
